@@ -52,6 +52,7 @@ type Report struct {
 	GoStmts     int      `json:"go_stmts"`    // rewritten go statements
 	GoApprox    int      `json:"go_approx"`   // ... whose arguments are evaluated late
 	Unsupported []string `json:"unsupported"` // constructs the simulator does not control
+	ChanOps     int      `json:"channel_ops"` // blocking channel operations rewritten to park in the kernel
 	Redirected  []string `json:"redirected"`  // file: import
 	Vars        int      `json:"package_vars"`
 	TypeErrors  []string `json:"type_errors"`
@@ -130,18 +131,102 @@ func main() {
 			n := 0
 			goN := 0
 			repl := map[ast.Stmt]ast.Stmt{}
+			mutated := false
+			// statements that are the communication of a select clause keep their meaning
+			inComm := map[ast.Node]bool{}
+			handled := map[ast.Node]bool{} // channel receives rewritten at statement level
+			ast.Inspect(fd.Body, func(node ast.Node) bool {
+				if cc, ok := node.(*ast.CommClause); ok && cc.Comm != nil {
+					inComm[cc.Comm] = true
+					ast.Inspect(cc.Comm, func(n ast.Node) bool {
+						if u, ok := n.(*ast.UnaryExpr); ok && u.Op == token.ARROW {
+							handled[u] = true
+						}
+						return true
+					})
+				}
+				return true
+			})
+			chanN := 0
+			chanSite := func(p token.Pos, what string) *ast.BasicLit {
+				chanN++
+				return &ast.BasicLit{Kind: token.STRING, Value: strconv.Quote(fmt.Sprintf("%s %s", pos(fset, p), what))}
+			}
+			recvCall := func(u *ast.UnaryExpr, fn string) ast.Expr {
+				handled[u] = true
+				usesRT = true
+				mutated = true
+				rep.ChanOps++
+				return &ast.CallExpr{Fun: sel("verifsimrt", fn), Args: []ast.Expr{u.X, chanSite(u.Pos(), "channel receive")}}
+			}
 			ast.Inspect(fd.Body, func(node ast.Node) bool {
 				switch s := node.(type) {
+				case *ast.ExprStmt:
+					if u, ok := s.X.(*ast.UnaryExpr); ok && u.Op == token.ARROW && !inComm[s] {
+						s.X = recvCall(u, "Recv")
+					}
+				case *ast.AssignStmt:
+					if len(s.Rhs) == 1 && !inComm[s] {
+						if u, ok := s.Rhs[0].(*ast.UnaryExpr); ok && u.Op == token.ARROW {
+							if len(s.Lhs) == 2 {
+								s.Rhs[0] = recvCall(u, "Recv2")
+							} else {
+								s.Rhs[0] = recvCall(u, "Recv")
+							}
+						}
+					}
 				case *ast.SendStmt:
-					rep.Unsupported = append(rep.Unsupported, pos(fset, s.Pos())+": channel send")
+					if inComm[s] {
+						return true
+					}
+					repl[s] = &ast.ExprStmt{X: &ast.CallExpr{Fun: sel("verifsimrt", "Send"), Args: []ast.Expr{s.Chan, s.Value, chanSite(s.Pos(), "channel send")}}}
+					usesRT = true
+					rep.ChanOps++
+				case *ast.CallExpr:
+					if id, ok := s.Fun.(*ast.Ident); ok && id.Name == "close" && len(s.Args) == 1 {
+						if _, isBuiltin := info.Uses[id].(*types.Builtin); isBuiltin || info.Uses[id] == nil {
+							s.Fun = sel("verifsimrt", "Close")
+							s.Args = append(s.Args, chanSite(s.Pos(), "close"))
+							usesRT, mutated = true, true
+							rep.ChanOps++
+						}
+					}
 				case *ast.SelectorExpr:
 					if x, ok := s.X.(*ast.Ident); ok && x.Name == "sync" && (s.Sel.Name == "Cond" || s.Sel.Name == "NewCond") {
 						rep.Unsupported = append(rep.Unsupported, pos(fset, s.Pos())+": sync.Cond")
 					}
 				case *ast.SelectStmt:
-					rep.Unsupported = append(rep.Unsupported, pos(fset, s.Pos())+": select")
+					hasDefault := false
+					bareContinue := false
+					for _, c := range s.Body.List {
+						cc := c.(*ast.CommClause)
+						if cc.Comm == nil {
+							hasDefault = true
+						}
+						for _, st := range cc.Body {
+							if hasBareContinue(st) {
+								bareContinue = true
+							}
+						}
+					}
+					if hasDefault {
+						return true // never blocks
+					}
+					if bareContinue {
+						rep.Unsupported = append(rep.Unsupported, pos(fset, s.Pos())+": select (a clause continues an enclosing loop)")
+						return true
+					}
+					// select { ... } => for { select { ...; default: park; continue }; break }
+					s.Body.List = append(s.Body.List, &ast.CommClause{Body: []ast.Stmt{
+						&ast.ExprStmt{X: &ast.CallExpr{Fun: sel("verifsimrt", "SelectPark"), Args: []ast.Expr{chanSite(s.Pos(), "select")}}},
+						&ast.BranchStmt{Tok: token.CONTINUE},
+					}})
+					inner := &ast.SelectStmt{Select: s.Select, Body: s.Body}
+					repl[s] = &ast.ForStmt{For: s.Pos(), Body: &ast.BlockStmt{List: []ast.Stmt{inner, &ast.BranchStmt{Tok: token.BREAK}}}}
+					usesRT = true
+					rep.ChanOps++
 				case *ast.UnaryExpr:
-					if s.Op == token.ARROW {
+					if s.Op == token.ARROW && !handled[s] {
 						rep.Unsupported = append(rep.Unsupported, pos(fset, s.Pos())+": channel receive")
 					}
 				case *ast.GoStmt:
@@ -166,7 +251,26 @@ func main() {
 						return true
 					}
 					if _, isChan := tv.Type.Underlying().(*types.Chan); isChan {
-						rep.Unsupported = append(rep.Unsupported, pos(fset, s.Pos())+": range over channel")
+						if s.Value != nil || (s.Key != nil && s.Tok != token.DEFINE) {
+							rep.Unsupported = append(rep.Unsupported, pos(fset, s.Pos())+": range over channel")
+							return true
+						}
+						// for v := range ch {..} => for v, ok := Recv2(ch); ok; v, ok = Recv2(ch) {..}
+						itCounter++
+						okID := fmt.Sprintf("verifOk%d", itCounter)
+						var key ast.Expr = ast.NewIdent("_")
+						if s.Key != nil {
+							key = s.Key
+						}
+						call := func() ast.Expr {
+							return &ast.CallExpr{Fun: sel("verifsimrt", "Recv2"), Args: []ast.Expr{s.X, chanSite(s.Pos(), "range over channel")}}
+						}
+						var post ast.Stmt = &ast.AssignStmt{Lhs: []ast.Expr{key, ast.NewIdent(okID)}, Tok: token.ASSIGN, Rhs: []ast.Expr{call()}}
+						repl[s] = &ast.ForStmt{For: s.For,
+							Init: &ast.AssignStmt{Lhs: []ast.Expr{key, ast.NewIdent(okID)}, Tok: token.DEFINE, Rhs: []ast.Expr{call()}},
+							Cond: ast.NewIdent(okID), Post: post, Body: s.Body}
+						usesRT = true
+						rep.ChanOps++
 						return true
 					}
 					mt, ok := tv.Type.Underlying().(*types.Map)
@@ -236,7 +340,7 @@ func main() {
 				}
 				return true
 			})
-			if len(repl) == 0 {
+			if len(repl) == 0 && !mutated {
 				continue
 			}
 			changed = true
@@ -337,6 +441,24 @@ func sel(x, name string) ast.Expr {
 func pos(fset *token.FileSet, p token.Pos) string {
 	q := fset.Position(p)
 	return fmt.Sprintf("%s:%d", filepath.Base(q.Filename), q.Line)
+}
+
+// hasBareContinue reports whether st contains a continue without label that is not inside a
+// loop of its own.
+func hasBareContinue(st ast.Stmt) bool {
+	found := false
+	ast.Inspect(st, func(n ast.Node) bool {
+		switch x := n.(type) {
+		case *ast.ForStmt, *ast.RangeStmt, *ast.FuncLit:
+			return false
+		case *ast.BranchStmt:
+			if x.Tok == token.CONTINUE && x.Label == nil {
+				found = true
+			}
+		}
+		return true
+	})
+	return found
 }
 
 func funcName(fd *ast.FuncDecl) string {
